@@ -9,7 +9,7 @@ CONSTANTS
   DtSet = {1}
   AskSet = {1}
   MinSet = {1}
-  ShapeSet = {"exact", "missing", "extra", "wrongId"}
+  ShapeSet = {"exact", "missing", "extra", "wrongId", "perm", "dup", "dupAdj"}
   TraceFile = "trace.ndjson"
   Checked = {"count", "lastExpired", "req", "rep", "res", "resolveEv", "pending"}
   Owned = {"Request", "Report", "EndBlock"}
